@@ -198,6 +198,10 @@ def check_line(eng, d, path, lineno, line, oc):
                 owners = [p for (k, v, p, z) in IDS if k == "RID" and v == t[2:-1]]
             elif t and is_zid(t):
                 owners = [p for (z, p) in ZIDS if z == t]
+            elif t and re.fullmatch(r"\[\[[A-Za-z0-9_/]+(#[^\]]*)?\]\]", t):
+                # a page link whose name has no dot is page <name>.zo under the notes directory, whatever the name
+                # looks like ([[pdf]] is the page pdf.zo)
+                owners = [t[2:-2].split("#")[0] + ".zo"]
             if owners is not None and len(owners) == 1 and (not out or out[0] != "EDIT " + owners[0]):
                 oc.spec_fail.append(({"line": line, "file": path, "opt": opt}, out,
                                      {"target": t, "owner_page": owners[0]}, None))
